@@ -4,7 +4,7 @@ From RW Require Import Base.Bytes Base.BytesFacts Fmt.Codec Fmt.CodecFacts Fmt.F
   Wal.CrashInv Wal.CrashFacts0 Wal.CrashFacts1 Wal.CrashFacts2 Wal.CrashFacts3 Wal.CrashFacts4 Wal.CrashFacts5
   Wal.CrashFacts6 Wal.CrashGlue Wal.CrashCalls1 Wal.CrashCalls2 Wal.CrashCalls3 Wal.CrashCalls4 Wal.CrashCalls5 Wal.CrashCalls6
   Wal.CrashCalls7 Wal.CrashCalls8 Wal.CrashCalls9 Wal.CrashCalls10 Wal.FaultSim Wal.FaultSim2 Wal.FaultInv Wal.FaultFacts2
-  Wal.FaultFacts3 Wal.FaultStore Wal.FaultDelete Wal.FaultSteps Gen.Constants.
+  Wal.FaultFacts3 Wal.FaultNames Wal.FaultStore Wal.FaultDelete Wal.FaultSteps Gen.Constants.
 From Coq Require Import ZifyN ZifyNat ZifyBool.
 Open Scope N_scope.
 
@@ -405,58 +405,87 @@ Proof.
   assert (Ew : set_rot wS None = w) by (apply set_rot_none_id; exact Hrot).
   pose proof (LInv_closed _ _ _ _ HL) as Hcl. cbn in Hcl.
   set (d := e_disk e) in *. set (ec := shenv e).
-  assert (HR : R None e ec).
-  { split; [apply drel_sh; [apply (LInv_NoDup_sh _ _ _ _ HL)|apply stale_ok_nopend; exact HN]|reflexivity]. }
+  pose proof (LInv_NoDup_sh _ _ _ _ HL) as ND.
+  set (X := stale_names d).
+  assert (HR : R X e ec) by (split; [apply drel_sh; [exact ND|apply stale_names_ok]|reflexivity]).
+  assert (Hex : forall n, In n X -> lookup n (dk_files d) <> None).
+  { intros n Hx. destruct (stale_names_in _ n ND Hx) as (f & p & Hl & _). rewrite Hl. discriminate. }
+  assert (HXu : forall n, In n X -> unlisted d n).
+  { intros n Hx. destruct (stale_names_in _ n ND Hx) as (f & p & Hl & Hp). apply (HN n f p Hl Hp). }
+  assert (HXw : forall n, In n X -> forall s, In s (st_segs wS) -> name_of s <> n).
+  { intros n Hx s Hs. apply (HXu n Hx (persistent wS) s (live_meta c nb wS d HL) Hs). }
   destruct (delete_range_S c nb wS ec mn mx nom Hc HL eq_refl ltac:(cbn; discriminate) Hnb Hsp Hmx)
     as (r0 & w0 & ec' & Hsl & Hres & HP & Hsp' & Hext).
   rewrite Ew in Hsl.
   destruct (delete_range c w mn mx e) as [[r w'] e'] eqn:Est. exists r, w', e'. split; [reflexivity|].
+  destruct (delete_range_sub _ _ _ _ _ _ _ _ Est) as (_ & Hms).
+  assert (Hgarb : forall n, In n X -> unlisted (e_disk e') n).
+  { intros n Hx. apply (unlisted_keep c nb wS d (e_disk e') n HL (Hex n Hx) (HXu n Hx)). exact Hms. }
   set (o1 := ODelete mn mx) in *. set (alts' := alts ++ app_op o1 alts).
   assert (Hia : incl alts alts') by (intros x Hx; apply in_or_app; left; exact Hx).
   assert (Hina : In nom alts') by (apply Hia; exact Hin).
   assert (HS1 : Seal c (nb + 1) w d).
   { exists tw. split; [exact Htw|]. split; [exact Hidx|]. split; [exact Hrot|]. split; [eapply LInv_mono; [|exact HL]; lia|exact HN]. }
-  assert (Hunch : Mode c (nb + 1) w d nom defer /\ RD c (nb + 1) d alts' defer).
-  { split; [apply Mode_seal; assumption|]. apply (RD_seal c (nb + 1) w d alts' defer HS1). rewrite Hsp. exact Hina. }
+  assert (Hunch : forall l, In nom l -> Mode c (nb + 1) w d nom defer /\ RD c (nb + 1) d l defer).
+  { intros l Hl. split; [apply Mode_seal; assumption|]. apply (RD_seal c (nb + 1) w d l defer HS1). rewrite Hsp. exact Hl. }
   assert (Hfin : forall dm, pfx ec ec' dm -> DP c (nb + 1) (fun x => x = nom \/ x = snd (step_spec nom o1)) dm) by (intros dm Hp; apply (ext_pfx _ _ _ _ Hext Hp)).
   assert (Hcand : forall x, x = nom \/ x = snd (step_spec nom o1) -> In x (candidates alts' defer)).
   { intros x [-> | ->]; [apply cand_alts; exact Hina|]. apply cand_alts.
     destruct (res_cases nom o1 r0 eq_refl Hres) as [(_ & Hacc)|(_ & _ & Hsnd)]; [eapply in_alts_app_op; eauto|rewrite Hsnd; exact Hina]. }
-  assert (Hfailmode : forall ps, drel None (e_disk e') (apply_act (sh d) (ACommit ps)) -> pfx ec ec' (apply_act (sh d) (ACommit ps)) ->
+  assert (Hfailmode : forall ps, post_commit X ec ec' (e_disk e') ps ->
             Mode c (nb + 1) (set_failed w) (e_disk e') nom defer /\ RD c (nb + 1) (e_disk e') alts' defer).
-  { intros ps Hrel Hpfx. destruct (Hfin _ Hpfx) as (HDm & HAm & _).
-    apply (fail_after_commit c nb (nb + 1) (set_failed w) wS (sh d) (e_disk e') None nom alts' defer ps ltac:(lia) HL Hsp eq_refl eq_refl eq_refl Hrot Hcl Hrel).
-    - intros n K; discriminate.
-    - exact HDm.
-    - apply Hcand. exact HAm.
-    - intros n ps' s K; discriminate. }
-  assert (Hg : forall tw0, st_tail w = Some tw0 -> None = Some (ws_name tw0) -> wguard (e_disk e) (ws_name tw0) (ws_off tw0)) by (intros tw0 _ K; discriminate).
-  destruct (delete_range_lock None c w mn mx e ec r w' e' r0 w0 ec' HR Hg Est Hsl) as [(-> & -> & HR' & _ & Herr)|(Hf' & -> & Hfail)].
+  { intros ps Hpc.
+    assert (Hmd' : dk_meta (e_disk e') = Some ps).
+    { destruct Hpc as (dm & (_ & M & _) & _ & Hm & _). rewrite M. exact Hm. }
+    apply (fail_after_commit c nb (nb + 1) (set_failed w) wS (sh d) (e_disk e') X nom alts' defer ps ec ec' ltac:(lia) HL eq_refl Hsp eq_refl eq_refl eq_refl Hrot Hcl Hpc).
+    - intros dm Hp. destruct (Hfin dm Hp) as (HDm & HAm & _). split; [exact HDm|apply Hcand; exact HAm].
+    - intros n Hx. right. apply (HXw n Hx).
+    - intros n s Hx Hs. apply (Hgarb n Hx ps s Hmd' Hs). }
+  assert (Hg : forall tw0, st_tail w = Some tw0 -> In (ws_name tw0) X -> wguard (e_disk e) (ws_name tw0) (ws_off tw0)).
+  { intros tw0 Ht0 Hx. exfalso. destruct (LInv_view _ _ _ _ HL) as (S & t & f0 & tw2 & V).
+    pose proof (lv_tail _ _ _ _ _ _ _ _ V) as K. cbn in K. rewrite Ht0 in K. inversion K; subst tw2.
+    apply (HXw _ Hx t); [rewrite (lv_segs _ _ _ _ _ _ _ _ V); apply in_or_app; right; left; reflexivity|].
+    symmetry. apply (lv_tw _ _ _ _ _ _ _ _ V). }
+  destruct (delete_range_lock X c w mn mx e ec r w' e' r0 w0 ec' HR Hg Est Hsl) as [(-> & -> & Herr & Hok)|(Hf' & -> & Hfail)].
   - assert (Hcl0 : st_closed w0 = false /\ st_failed w0 = false).
     { destruct HP as [K|(K & _)]; [split; apply K|]. pose proof K as (K1 & K2 & _). cbn in K1, K2. auto. }
     split; [apply Hcl0|].
     destruct (res_cases nom o1 r0 eq_refl Hres) as [(-> & Hacc)|(Hne & Hacc & Hsnd)].
     + left. split; [reflexivity|]. exists (snd (step_spec nom o1)). split; [exact Hacc|].
-      destruct HP as [HL0|(HL0 & Ht0 & Hr0)].
-      * destruct (clean_after c (nb + 1) w0 e' ec' HL0 HR') as (HLs & HNs & Hsps). rewrite Hsp' in Hsps.
-        apply (live_out c (nb + 1) w0 (e_disk e') _ _ defer); [apply live_clean; assumption|exact Hsps|left; reflexivity].
-      * destruct (clean_after c (nb + 1) _ e' ec' HL0 HR') as (HLs & HNs & Hsps). rewrite Hsp' in Hsps.
-        assert (HS0 : Seal c (nb + 1) w0 (e_disk e')).
-        { exists tw. split; [rewrite Ht0; exact Htw|]. split; [exact Hidx|]. split; [exact Hr0|]. split; [exact HLs|exact HNs]. }
-        split; [apply Mode_seal; assumption|]. apply (RD_seal c (nb + 1) w0 _ _ defer HS0). rewrite Hsps. left. reflexivity.
+      (* whatever the deletions did, the pending batches stay in unlisted files *)
+      assert (Hpost : forall X' ns, Rd X' ns ec e' ec' -> incl X' X ->
+                Mode c (nb + 1) w0 (e_disk e') (snd (step_spec nom o1)) defer /\
+                RD c (nb + 1) (e_disk e') (snd (step_spec nom o1) :: app_op o1 alts) defer).
+      { intros X' ns HRd Hincl. destruct HP as [HL0|(HL0 & Ht0 & Hr0)].
+        - destruct (Rd_live c (nb + 1) _ w0 e' ec ec' X' ns defer Hext HL0 HRd) as (HLv & Hsps).
+          { intros n f p Hx _ _ _. right. apply Hgarb. apply Hincl. exact Hx. }
+          rewrite Hsp' in Hsps.
+          apply (live_out c (nb + 1) w0 (e_disk e') _ _ defer); [exact HLv|exact Hsps|left; reflexivity].
+        - destruct (Rd_post c (nb + 1) _ _ e' ec ec' X' ns (fun _ _ _ => False) Hext HL0 HRd) as (HLs & HNs & Hsps).
+          { intros n f p Hx _ _ _. right. apply Hgarb. apply Hincl. exact Hx. }
+          rewrite Hsp' in Hsps.
+          assert (HS0 : Seal c (nb + 1) w0 (e_disk e')).
+          { exists tw. split; [rewrite Ht0; exact Htw|]. split; [exact Hidx|]. split; [exact Hr0|]. split; [exact HLs|].
+            intros n f p Hl Hp. destruct (HNs n f p Hl Hp) as [[]|K]. exact K. }
+          split; [apply Mode_seal; assumption|]. apply (RD_seal c (nb + 1) w0 _ _ defer HS0). rewrite Hsps. left. reflexivity. }
+      destruct (Hok eq_refl) as [(-> & -> & Eec)|[(ns & HRd & _)|(ns & X' & HRd & Hincl & _)]].
+      * rewrite Eec in Hsp'. change (e_disk ec) with (sh d) in Hsp'. rewrite <- Hsp', Hsp.
+        apply Hunch. left. reflexivity.
+      * apply (Hpost X ns HRd (incl_refl _)).
+      * apply (Hpost X' ns HRd Hincl).
     + right. split; [exact Hne|].
-      destruct (Herr Hne) as [Hfl|(-> & -> & Eec)]; [destruct Hcl0; congruence|]. exact Hunch.
-  - destruct Hfail as [[(-> & Hd)|(-> & ps & Hrel & Hpfx & _)]|[(tw1 & Htw1 & His & _)|
-                       (tw1 & tw' & e1 & ec1 & o' & Htw1 & Hfsc & Hfs & HR1 & Ho' & _ & Hsh1 & Hrest)]].
-    + split; [exact Hcl|]. right. split; [discriminate|]. rewrite Hd. exact Hunch.
-    + split; [exact Hcl|]. right. split; [discriminate|]. apply (Hfailmode ps Hrel Hpfx).
+      destruct (Herr Hne) as [Hfl|(-> & -> & Eec)]; [destruct Hcl0; congruence|]. apply Hunch. exact Hina.
+  - destruct Hfail as [[(-> & Hd)|(-> & ps & Hpc & _)]|[(tw1 & Htw1 & His & _)|
+                       (tw1 & tw' & e1 & ec1 & X' & Htw1 & Hfsc & Hfs & HR1 & HX' & _ & Hsh1 & Hrest)]].
+    + split; [exact Hcl|]. right. split; [discriminate|]. rewrite Hd. apply Hunch. exact Hina.
+    + split; [exact Hcl|]. right. split; [discriminate|]. apply (Hfailmode ps Hpc).
     + exfalso. rewrite Htw in Htw1. inversion Htw1; subst tw1. lia.
     + rewrite Htw in Htw1. inversion Htw1; subst tw1.
       rewrite seg_force_seal_eq in Hfsc, Hfs. replace (0 <? ws_index_start tw) with true in Hfsc, Hfs by lia.
       inversion Hfsc; subst tw' ec1. inversion Hfs; subst e1.
-      assert (Eo' : o' = None) by (destruct Ho' as [-> | (_ & ->)]; reflexivity). subst o'.
+      assert (EX' : X' = X) by (destruct HX' as [-> | (K & _)]; [reflexivity|lia]). subst X'.
       assert (Est' : set_tail w (Some tw) = w) by (rewrite <- Htw; apply set_tail_id).
-      destruct Hrest as [(-> & Hd & _)|(-> & ps & Hrel & Hpfx & _)]; rewrite Est'.
-      * split; [exact Hcl|]. right. split; [discriminate|]. rewrite Hd. exact Hunch.
-      * split; [exact Hcl|]. right. split; [discriminate|]. apply (Hfailmode ps Hrel Hpfx).
+      destruct Hrest as [(-> & Hd & _)|(-> & ps & Hpc & _)]; rewrite Est'.
+      * split; [exact Hcl|]. right. split; [discriminate|]. rewrite Hd. apply Hunch. exact Hina.
+      * split; [exact Hcl|]. right. split; [discriminate|]. apply (Hfailmode ps Hpc).
 Qed.
